@@ -132,6 +132,8 @@ pub enum TsStage {
     EventWindow { k: i64, size: i64, slide: i64 },
     /// merge with a second scripted source (after a shuffle on both sides if needed)
     Merge(TsSource),
+    /// zip with a second scripted source (pair timestamp = max of the two)
+    Zip(TsSource),
     DropTimestamps,
 }
 
@@ -272,6 +274,15 @@ impl<'a> TsBuilder<'a> {
                 let r = if repl != other.repl { Repl::Unlimited } else { repl };
                 (erase(s.merge(o)), r, "merge")
             }
+            TsStage::Zip(other) => {
+                let o = self.source(other);
+                let (s, o) = if repl != other.repl { (erase(s.shuffle()), erase(o.shuffle())) } else { (s, o) };
+                (
+                    erase(s.zip(o).map(|(a, b): (Rec, Rec)| Rec::new(mix_pair(Some(a.v), Some(b.v))))),
+                    Repl::One,
+                    "zip",
+                )
+            }
             TsStage::DropTimestamps => (erase(s.drop_timestamps()), repl, "drop_timestamps"),
         };
         (self.tap(out, name), r)
@@ -377,11 +388,11 @@ pub fn gen_job(ch: &mut Chooser, p: &TsProfile) -> TsJob {
         }
         let w = if p.single_replica_iterations {
             // only stages that keep everything on one replica
-            [3u32, 2, 1, 0, 0, 3, 2, 6, 1, 0, 0, 0, 0, 1]
+            [3u32, 2, 1, 0, 0, 3, 2, 6, 1, 0, 0, 0, 0, 1, 0]
         } else if p.reorder_only {
-            [2u32, 1, 0, 3, 2, 1, 2, 8, 0, 0, 0, 0, 2, 0]
+            [2u32, 1, 0, 3, 2, 1, 2, 8, 0, 0, 0, 0, 2, 0, 0]
         } else {
-            [3, 2, 1, 4, 3, 2, 2, 3, 2, 2, if p.windows { 2 } else { 0 }, if p.windows { 3 } else { 0 }, 3, 1]
+            [3, 2, 1, 4, 3, 2, 2, 3, 2, 2, if p.windows { 2 } else { 0 }, if p.windows { 3 } else { 0 }, 3, 1, if p.windows { 2 } else { 0 }]
         };
         let st = match ch.weighted(&w) {
             0 => TsStage::Map,
@@ -420,11 +431,19 @@ pub fn gen_job(ch: &mut Chooser, p: &TsProfile) -> TsJob {
                 }
                 TsStage::Merge(other)
             }
-            _ => TsStage::DropTimestamps,
+            13 => TsStage::DropTimestamps,
+            _ => {
+                let mut other = gen_source(ch, &ScriptOpts { max_replicas: 3, max_iterations: 1, max_len: 25, non_negative: false, styles: [6, 1, 1, 1], min_len: 0, wm_weight: 3 }, &mut next_id);
+                other.iterations = source.iterations;
+                for s in other.scripts.iter_mut() {
+                    s.resize(source.iterations, Vec::new());
+                }
+                TsStage::Zip(other)
+            }
         };
         if !timestamped {
             // after drop_timestamps only timestamp-agnostic stages make sense
-            if matches!(st, TsStage::Reorder | TsStage::EventWindow { .. } | TsStage::Merge(_) | TsStage::DropTimestamps) {
+            if matches!(st, TsStage::Reorder | TsStage::EventWindow { .. } | TsStage::Merge(_) | TsStage::Zip(_) | TsStage::DropTimestamps) {
                 continue;
             }
         }
